@@ -78,6 +78,10 @@ def _rand_table(rng, k, nondet, names, profile, twin):
                 a2 = alt()
                 if twin:
                     a2 = (rng.choice(work + fins if rng.random() < 0.2 else work), alts[0][1])
+                    if len(work) >= 2 and rng.random() < 0.5:
+                        # the guess is between the first two working states (same writes, same moves)
+                        pair = work[:2] if rng.random() < 0.5 else work[1::-1]
+                        alts[0], a2 = (pair[0], alts[0][1]), (pair[1], alts[0][1])
                 if a2 != alts[0]:
                     alts.append(a2)
             row[key] = alts
